@@ -331,12 +331,12 @@ def _leapfrog_structure(vc, method, bounded_):
                and out[0].role == "t" and out[1] is r)
 
 
-@contract("C07", "standard_leapfrog_structure", native=False, replay_with="trajectory_native")
+@contract("C07", "standard_leapfrog_structure", native=False, replay_with="trajectory_native", tags=("structural",))
 def standard_leapfrog_structure(vc):
     _leapfrog_structure(vc, "standard_leapfrog", False)
 
 
-@contract("C07", "bounded_leapfrog_structure", native=False, replay_with="trajectory_native")
+@contract("C07", "bounded_leapfrog_structure", native=False, replay_with="trajectory_native", tags=("structural",))
 def bounded_leapfrog_structure(vc):
     _leapfrog_structure(vc, "bounded_leapfrog", True)
 
